@@ -603,6 +603,15 @@ func NewRaft(conf *Config, fsm FSM, logs LogStore, stable StableStore, snaps Sna
 		return nil, err
 	}
 
+	// A crash between persisting an installed snapshot and dropping the log
+	// entries it supersedes leaves entries below the snapshot that do not
+	// connect to it. They were never confirmed by a leader: drop them now.
+	if snapIdx, snapTerm := r.getLastSnapshot(); snapIdx > 0 {
+		if err := r.dropUnconfirmedLogs(snapIdx, snapTerm); err != nil {
+			return nil, fmt.Errorf("failed to drop log entries superseded by snapshot: %v", err)
+		}
+	}
+
 	if err := r.restoreFromCommittedLogs(); err != nil {
 		return nil, err
 	}
